@@ -46,6 +46,9 @@ type C29Case struct {
 	Format string        `json:"format,omitempty"` // read side: cbe | cte
 	Block  int           `json:"block,omitempty"`  // read side: bytes granted per read (0 = as asked)
 	Err    string        `json:"err,omitempty"`    // error value returned by the fault: "" (plain) | unexpected-eof | wrapped-eof
+	// Multi: failure sequences - each a set of call indices (taken modulo the number of calls of the healthy
+	// run) that fail once each while the calls between them succeed
+	Multi [][]int `json:"multi,omitempty"`
 }
 
 var c29WriteEntries = []string{"MarshalCBE", "MarshalCTE", "CBEMarshaler.Marshal", "CTEMarshaler.Marshal", "CBEEncoder", "CTEEncoder"}
@@ -61,12 +64,13 @@ type faultWriter struct {
 	mode   string
 	hit    bool
 	err    error
+	set    map[int]bool // multi-failure sequence: these calls fail (mode "once" semantics)
 }
 
 func (w *faultWriter) Write(p []byte) (int, error) {
 	i := w.calls
 	w.calls++
-	if w.failAt >= 0 && (i == w.failAt || (w.mode == "sticky" && i > w.failAt)) {
+	if w.set[i] || w.failAt >= 0 && (i == w.failAt || (w.mode == "sticky" && i > w.failAt)) {
 		w.hit = true
 		if w.err == nil {
 			w.err = errInjected
@@ -100,6 +104,7 @@ type faultReader struct {
 	mode   string
 	hit    bool
 	err    error
+	set    map[int]bool // multi-failure sequence: these calls fail once each and later calls carry on
 }
 
 func (r *faultReader) Read(p []byte) (int, error) {
@@ -107,6 +112,10 @@ func (r *faultReader) Read(p []byte) (int, error) {
 	r.calls++
 	if r.err == nil {
 		r.err = errInjected
+	}
+	if r.set[i] && len(p) > 0 {
+		r.hit = true
+		return 0, r.err
 	}
 	if len(p) == 0 {
 		return 0, nil
@@ -205,6 +214,13 @@ func c29Read(c *C29Case, ctx *Ctx, doc []byte, r *faultReader) (err error, bad e
 	return err, nil
 }
 
+func genC29Multi(t *rapid.T) (out [][]int) {
+	for i := 0; i < 3; i++ {
+		out = append(out, rapid.SliceOfN(rapid.IntRange(0, 63), 2, 4).Draw(t, "multi"))
+	}
+	return
+}
+
 func genC29(t *rapid.T, ctx *Ctx) interface{} {
 	evOpts := gen.EvOpts{Comments: true, Padding: true, CustomBinary: true, Media: true, Markers: true, Records: true, Chunked: true, URLRID: true,
 		MaxDepth: 3, MaxArr: 40, Budget: 14, NoEdge: true}
@@ -213,6 +229,7 @@ func genC29(t *rapid.T, ctx *Ctx) interface{} {
 	if rapid.Bool().Draw(t, "side") {
 		c := &C29Case{Side: "write", Entry: rapid.SampledFrom(c29WriteEntries).Draw(t, "entry")}
 		c.Err = rapid.SampledFrom([]string{"", "", "unexpected-eof", "wrapped-eof"}).Draw(t, "werr")
+		c.Multi = genC29Multi(t)
 		if c.Entry == "CBEEncoder" || c.Entry == "CTEEncoder" {
 			c.Events = gen.Document(t, evOpts)
 			return c
@@ -230,6 +247,7 @@ func genC29(t *rapid.T, ctx *Ctx) interface{} {
 	}
 	c := &C29Case{Side: "read", Entry: rapid.SampledFrom(c29ReadEntries).Draw(t, "rentry")}
 	c.Err = rapid.SampledFrom([]string{"", "unexpected-eof", "wrapped-eof"}).Draw(t, "rerr")
+	c.Multi = genC29Multi(t)
 	c.Events = gen.Document(t, evOpts)
 	switch c.Entry {
 	case "UnmarshalCBE", "CBEDecoder.Decode", "CBEUnmarshaler.Unmarshal":
@@ -291,6 +309,24 @@ func init() {
 						}
 					}
 				}
+				for _, m := range c.Multi {
+					w := &faultWriter{failAt: -1, mode: "once", err: c29Err(c.Err), set: map[int]bool{}}
+					for _, k := range m {
+						w.set[k%probe.calls] = true
+					}
+					faults++
+					err, bad := c29Write(c, ctx, w)
+					if bad != nil {
+						return fmt.Errorf("write calls %v of %d failing: %v", m, probe.calls, bad)
+					}
+					if w.hit {
+						hits++
+						ctx.Label("multi-failure sequence hit")
+						if err == nil {
+							return fmt.Errorf("%s reported success although write calls %v (modulo %d) failed", c.Entry, m, probe.calls)
+						}
+					}
+				}
 				return nil
 			}
 			// ---- read side
@@ -337,6 +373,24 @@ func init() {
 					if err == nil {
 						return fmt.Errorf("%s reported success although read call %d of %d failed with the error %q (%s, block=%d, %d of %d bytes delivered)\ndoc=%s",
 							c.Entry, i, probe.calls, r.err, mode, c.Block, r.pos, len(doc), docdump(c.Format, doc))
+					}
+				}
+			}
+			for _, m := range c.Multi {
+				r := &faultReader{data: doc, block: c.Block, failAt: -1, mode: "once", err: c29Err(c.Err), set: map[int]bool{}}
+				for _, k := range m {
+					r.set[k%probe.calls] = true
+				}
+				faults++
+				err, bad := c29Read(c, ctx, doc, r)
+				if bad != nil {
+					return fmt.Errorf("read calls %v of %d failing: %v\ndoc=%s", m, probe.calls, bad, docdump(c.Format, doc))
+				}
+				if r.hit {
+					hits++
+					ctx.Label("multi-failure sequence hit")
+					if err == nil {
+						return fmt.Errorf("%s reported success although read calls %v (modulo %d) failed with %q (block=%d)\ndoc=%s", c.Entry, m, probe.calls, r.err, c.Block, docdump(c.Format, doc))
 					}
 				}
 			}
